@@ -631,7 +631,92 @@ fn c17_faults_per_sample(t: Tier) -> usize {
     2 * (bits + 4)
 }
 pub fn runs_c17(t: Tier) -> usize {
-    1 + c17_sessions(t) + c17_samples(t) * c17_faults_per_sample(t)
+    1 + c17_sessions(t) + c17_samples(t) * c17_faults_per_sample(t) + 1
+}
+
+/// klen = 1 and an r_B for which the derived key byte is 00 (probability 2^-8 per r_B): GM/T 0044.3
+/// has no "try again" step, the library has one on the responder side and a loop on the
+/// initiator side. Session 1: library responder offered the bad r_B first. Session 2: library
+/// initiator facing a conforming responder that used the bad r_B (shared key 00).
+fn rare_zero_key_run(p: &mut Prng, w: &mut World) {
+    let (ida, idb) = (b"Alice".to_vec(), b"Bob".to_vec());
+    let master = "0002E65B0762D042F51F0D23542B13ED8CFA2E9A0E7206361E013A283905E31F";
+    if !setup_keys(p, w, "k", "exch", &ida, Some(master)) {
+        return;
+    }
+    w.exec(set("k.idb", &idb));
+    w.exec(json!({"op":"sm9.extract","impl":"ref","kind":"exch","k":"k.k","pub":"k.pub","id":"k.idb","out":"k.ukb"}));
+    let (ppube, deb) = match (w.slots.get("k.pub").cloned(), w.slots.get("k.ukb").cloned()) {
+        (Some(a), Some(b)) => (a, b),
+        _ => return,
+    };
+    let pp = g1_unwire(&ppube).unwrap();
+    let de_b = g2_unwire(&deb).unwrap();
+    let n = order();
+    let ra = (BigUint::from_bytes_be(&p.bytes32()) % (&n - 1u32)) + 1u32;
+    let (ra_pt, g, e_peer) = rsm9::with(|s| {
+        let ra_pt = s.kex_r_point(&pp, &idb, &ra);
+        let g = s.pairing(&pp, &s.g2).unwrap();
+        let e_peer = s.pairing(&ra_pt, &de_b).unwrap();
+        (ra_pt, g, e_peer)
+    });
+    let key_byte = |rb: &BigUint| -> u8 {
+        rsm9::with(|s| {
+            let rb_pt = s.kex_r_point(&pp, &ida, rb);
+            let mut z = Vec::new();
+            z.extend_from_slice(&ida);
+            z.extend_from_slice(&idb);
+            z.extend_from_slice(&s.g1_bytes(&ra_pt)[1..]);
+            z.extend_from_slice(&s.g1_bytes(&rb_pt)[1..]);
+            z.extend_from_slice(&s.f_bytes(&e_peer));
+            z.extend_from_slice(&s.f_bytes(&s.f_pow(&g, rb)));
+            z.extend_from_slice(&s.f_bytes(&s.f_pow(&e_peer, rb)));
+            kdf(&z, 1)[0]
+        })
+    };
+    let mut bad = None;
+    let mut good = None;
+    for _ in 0..2500 {
+        let rb = (BigUint::from_bytes_be(&p.bytes32()) % (&n - 1u32)) + 1u32;
+        if key_byte(&rb) == 0 {
+            bad = Some(rb);
+            break;
+        } else if good.is_none() {
+            good = Some(rb);
+        }
+    }
+    let (bad, good) = match (bad, good) {
+        (Some(b), Some(g)) => (b, g),
+        _ => return,
+    };
+    w.bump("probe.sm9.kex.zero-key-rB-found");
+    let h = |x: &BigUint| hex::encode(be32(x));
+    // --- session 1: reference initiator, library responder offered the bad r_B first
+    w.exec(json!({"op":"sm9.kex.1a","impl":"ref","ppube":"k.pub","idb":"k.idb","out_ra":"m1.ra","out_r":"a.store.r","rng":{"c":[h(&ra)],"f":1}}));
+    w.exec(json!({"op":"copy","from":"m1.ra","to":"a.store.ra"}));
+    let r2 = w.exec(json!({"op":"sm9.kex.1b","impl":"lib","ppube":"k.pub","ida":"k.id","idb":"k.idb","de":"k.ukb","ra":"m1.ra","klen":1,"out_rb":"m2.rb","out_sk":"b.sk","conform":true,"rng":{"c":[h(&bad), h(&good)],"f":2}}));
+    if r2.get("class").and_then(|c| c.as_str()) == Some("Ok") {
+        w.exec(json!({"op":"copy","from":"m2.rb","to":"b.store.rb"}));
+        w.exec(json!({"op":"sm9.kex.2a","impl":"ref","ppube":"k.pub","ida":"k.id","idb":"k.idb","de":"k.uk","r":"a.store.r","ra":"a.store.ra","rb":"m2.rb","klen":1,"out_sk":"a.sk"}));
+        let ska: Value = if w.slots.contains_key("a.sk") { json!("a.sk") } else { Value::Null };
+        w.exec(json!({"op":"sm9.kex.end","ska":ska,"skb":"b.sk","ra_sent":"a.store.ra","ra_delivered":"m1.ra","rb_sent":"b.store.rb","rb_delivered":"m2.rb"}));
+    }
+    // --- session 2: library initiator, conforming (reference) responder that used the bad r_B
+    for s in ["m1.ra", "m2.rb", "a.sk", "b.sk", "a.store.r", "a.store.ra", "b.store.rb"] {
+        w.slots.remove(s);
+    }
+    let r1 = w.exec(json!({"op":"sm9.kex.1a","impl":"lib","ppube":"k.pub","idb":"k.idb","out_ra":"m1.ra","out_r":"a.store.r","rng":{"c":[h(&ra)],"f":3}}));
+    if r1.get("class").and_then(|c| c.as_str()) != Some("Ok") {
+        return;
+    }
+    w.exec(json!({"op":"copy","from":"m1.ra","to":"a.store.ra"}));
+    w.exec(json!({"op":"sm9.kex.1b","impl":"ref","ppube":"k.pub","ida":"k.id","idb":"k.idb","de":"k.ukb","ra":"m1.ra","klen":1,"out_rb":"m2.rb","out_sk":"b.sk","rng":{"c":[h(&bad)],"f":4}}));
+    if w.slots.contains_key("m2.rb") {
+        w.exec(json!({"op":"copy","from":"m2.rb","to":"b.store.rb"}));
+        w.exec(json!({"op":"sm9.kex.2a","impl":"lib","ppube":"k.pub","ida":"k.id","idb":"k.idb","de":"k.uk","r":"a.store.r","ra":"a.store.ra","rb":"m2.rb","klen":1,"out_sk":"a.sk","conform":true}));
+        let ska: Value = if w.slots.contains_key("a.sk") { json!("a.sk") } else { Value::Null };
+        w.exec(json!({"op":"sm9.kex.end","ska":ska,"skb":"b.sk","ra_sent":"a.store.ra","ra_delivered":"m1.ra","rb_sent":"b.store.rb","rb_delivered":"m2.rb"}));
+    }
 }
 
 struct KexPlan {
@@ -722,6 +807,11 @@ pub fn run_c17(p: &mut Prng, t: Tier, i: usize, sink: &mut Sink) {
             )),
         );
         w.exec(json!({"op":"assert.eq","a":"a.sk","hex":"c5c13a8f59a97cdeae64f16a2272a9e7","property":"C17","oracle":"annex-example","entry":"sm9.kex","class":"annex-example","what":"GM/T 0044.5 Annex A SK"}));
+        sink.done(w);
+        return;
+    }
+    if i + 1 == runs_c17(t) {
+        rare_zero_key_run(p, &mut w);
         sink.done(w);
         return;
     }
